@@ -83,6 +83,8 @@ pub mod rust_log_ref_finder
                     // Macro name
                     let inner_rule = inner_rules.next();
 
+                    let statement_start: usize;
+
                     let macro_name: &str = match inner_rule
                     {
                         None => continue,
@@ -93,9 +95,11 @@ pub mod rust_log_ref_finder
                                 continue;
                             }
 
+                            statement_start = rule.as_span().start();
+
                             if check_for_ignore_directive(
                                 code,
-                                rule.as_span().start(),
+                                statement_start,
                                 &RUST_COMMENT_PATTERN,
                             )
                             {
@@ -212,7 +216,7 @@ pub mod rust_log_ref_finder
                     if config.rust.structured
                         && !check_for_no_kvp_directive(
                             code,
-                            rule_ref_container_span.start(),
+                            statement_start,
                             &RUST_COMMENT_PATTERN,
                         )
                     {
